@@ -799,6 +799,11 @@ class Walker:
             if name == "eq" and len(args) == 1:
                 fake = {"k": "binary", "op": "==", "l": n["recv"], "r": n["args"][0]}
                 return self.ev_binary(fake, st)
+            if name.startswith("wrapping_") and name[9:] in ("add", "sub", "mul", "shl", "shr") and len(args) == 1:
+                # overflow-safe spelling of the operator: same value wherever the plain operator is defined
+                op = {"add": "+", "sub": "-", "mul": "*", "shl": "<<", "shr": ">>"}[name[9:]]
+                fake = {"k": "binary", "op": op, "l": n["recv"], "r": n["args"][0], "loc": n.get("loc")}
+                return self.ev_binary(fake, st)
             rt = None
             if name in ("take", "replace") and isinstance(recv, Sym) and recv.ty and recv.ty.startswith("Option"):
                 rt = recv.ty
